@@ -24,6 +24,8 @@ def main():
     domains, why = c20_table.domains(funcs)
     res = bounds.run_all(tus, ext, table=c20_table.flat_table(), domains=domains, trusted=c20_table.TRUSTED, sites=None)
     sites = collections.Counter()
+    why_of = {}
+    shown = {}
     for f in funcs:
         L = res[f.name]
         proven_at = collections.defaultdict(list)
@@ -33,26 +35,33 @@ def main():
             if r["cls"] in ("PROVEN", "GUARDED"):
                 proven_at[a.key4()].append(a)
             elif r["cls"] == "PRECONDITION" and r.get("site"):
-                need_at[a.key4()].append(a)
+                need_at[a.key4()].append((a, r["why"]))
         for k4, accs in need_at.items():
             if k4 not in proven_at:
                 sites[k4] += len(accs)
+                why_of[k4] = accs[0][1]
+                shown[k4] = "%s | %s" % (accs[0][0].show_key(), bounds.norm_text(accs[0][0].stmt))
                 continue
             # the same statement text is provable elsewhere: qualify with a dominating condition that the provable sites lack
             others = set(t for p in proven_at[k4] for t in p.cond_texts())
-            for a in accs:
+            for a, why in accs:
                 q = [t for t in a.cond_texts() if t not in others]
                 if not q:
-                    print("AMBIGUOUS site (cannot qualify): %s" % k4)
-                    sites[k4] += 1
+                    print("AMBIGUOUS site (cannot qualify): %s" % (k4,))
+                    k = k4
                 else:
-                    sites["%s@%s" % (k4, q[0])] += 1
+                    k = k4 + (q[0],)
+                sites[k] += 1
+                why_of[k] = why
+                shown[k] = "%s | %s%s" % (a.show_key(), bounds.norm_text(a.stmt), (" @ " + q[0]) if q else "")
     for k, v in sorted(sites.items()):
-        print("%3d  %s" % (v, k))
+        print("%3d  %s" % (v, shown[k]))
     print("%d sites, %d accesses" % (len(sites), sum(sites.values())))
     if "--write" in sys.argv:
+        rows = [dict(function=k[0], array=k[1], access=k[2], statement=k[3], when=(k[4] if len(k) > 4 else None), n=v,
+                     shown=shown[k], why=why_of[k]) for k, v in sorted(sites.items())]
         with open(os.path.join(VERIF, "rules", "c20_sites.json"), "w") as f:
-            json.dump(dict(sorted(sites.items())), f, indent=0, sort_keys=True)
+            json.dump(rows, f, indent=0, sort_keys=True)
             f.write("\n")
         print("written rules/c20_sites.json")
 
